@@ -57,6 +57,49 @@ func (w *World) oldSnapshotBackup(t *rapid.T, st *ev.Stats, checkAlloc bool) boo
 	return w.storeLoadCycleOf(t, st, checkAlloc, i, true)
 }
 
+// reversionedBackup backs up an older snapshot many of whose keys have newer physical versions
+// (deleted and re-inserted after it was taken), on a database large enough for the backup's range
+// partitioning to pick pivots among them.
+func (w *World) reversionedBackup(t *rapid.T, st *ev.Stats, checkAlloc bool) bool {
+	if len(w.OpenSnaps()) >= 7 {
+		t.Skip("too many snapshots")
+	}
+	if len(w.live) < 40 {
+		w.bulkPut(t)
+		w.bulkPut(t)
+	}
+	w.NewSnapshot()
+	i := len(w.snaps) - 1
+	s := w.snaps[i]
+	if len(s.content) == 0 {
+		t.Skip("empty")
+	}
+	wi := w.drawWriter(t)
+	stride := rapid.IntRange(1, 3).Draw(t, "reversionstride")
+	w.quiet = true
+	n := 0
+	for j := rapid.IntRange(0, 2).Draw(t, "reversionfrom"); j < len(s.content); j += stride {
+		item := []byte(s.content[j])
+		k := w.cfg.keyOf(item)
+		if w.live[k] == nil {
+			continue
+		}
+		w.Delete(wi, w.probeFor([]byte(k)))
+		if w.cfg.KV {
+			w.Put(wi, nitro.KVToBytes([]byte(k), []byte("reversioned")))
+		} else {
+			w.Put(wi, item)
+		}
+		n++
+	}
+	w.quiet = false
+	w.logf("reversion(s%d,%d keys)", i, n)
+	if rapid.Bool().Draw(t, "sealreversion") && len(w.OpenSnaps()) < 8 {
+		w.NewSnapshot()
+	}
+	return w.storeLoadCycleOf(t, st, checkAlloc, i, false)
+}
+
 func (w *World) storeLoadCycleOf(t *rapid.T, st *ev.Stats, checkAlloc bool, i int, forceConsume bool) (nontrivial bool) {
 	s := w.snaps[i]
 	nitro.DiskBlockSize = []int{512 * 1024, 64, 16}[rapid.IntRange(0, 2).Draw(t, "blocksize")]
@@ -185,6 +228,16 @@ func TestC05(t *testing.T) {
 			cycles++
 			if w.oldSnapshotBackup(t, st, false) {
 				nontrivial = true
+			}
+		}
+		acts["backup_reversioned"] = func(t *rapid.T) {
+			if cycles >= 3 {
+				t.Skip("enough backups")
+			}
+			cycles++
+			if w.reversionedBackup(t, st, false) {
+				nontrivial = true
+				st.Class("reversioned-old-snapshot-backup", 1)
 			}
 		}
 		acts[""] = func(t *rapid.T) {}
